@@ -14,6 +14,7 @@ pub mod c07;
 pub mod c08;
 pub mod c09;
 pub mod c11;
+pub mod c11f;
 pub mod c12;
 pub mod c13;
 pub mod c14;
